@@ -542,8 +542,8 @@ func (e *Enc) div0(fr *Frame, x *ssa.BinOp, d T) {
 func (e *Enc) floatOp(name, ret string, args ...T) T {
 	e.declFloat()
 	var ss []string
-	for range args {
-		ss = append(ss, SF)
+	for _, a := range args {
+		ss = append(ss, a.Sort)
 	}
 	f := e.s.DeclareFun(name, ss, ret)
 	e.floatOpsUsed[name] = true
